@@ -192,7 +192,18 @@ def step (st : St) (op : List String) : Option (St × String) :=
     let (h, p) := alloc st.h (.prop 0)
     pure (newRes { st with h := h } (asOrbit h a p))
   | ["assv", i] => do let a ← var? st i; pure (newRes st (asSV st.h a))
-  | ["setf", i, f] => do let a ← var? st i; pure (unitRes st (setForm st.h a f))
+  | ["setf", i, f] => do let a ← var? st i; pure (unitRes st (setFormX st.h a f))
+  -- a form change whose conversion raises on leg `k` of its route (the harness makes that leg fail)
+  | ["setfx", i, f, _, k] => do
+    let a ← var? st i
+    let k ← k.toNat?
+    let nconv := (formSteps.filter (· == .convert)).length
+    let idx := if nconv ≤ 1 then 0 else min k (nconv - 1)
+    pure (unitRes st (setFormX st.h a f (fun j => if j = idx then some .value else none)))
+  | ["xform", i, f] => do
+    let a ← var? st i
+    let fr ← resolveFrame f
+    pure (newRes st (transformObj st.h a fr))
   | ["setfr", i, f] => do let a ← var? st i; pure (unitRes st (setFrame st.h a f))
   -- a frame assignment the environment makes fail: `iso` — the target is a frame (orientation of `f`) whose centre
   -- has no link to any other; `eop` — no Earth-orientation data for the date under the 'error' policy
